@@ -1,5 +1,5 @@
-\* flush / close of ONE Elasticsearch store under every outcome of the _bulk requests (two chunks, one retry), re-open after a failed close;
-\* repaired variant (records carry a client-generated _id): every invariant holds
+\* content of records: meta-info scopes, per-record meta_data, relative time and reset, sample type / task fields, race context, user tag, open() variants;
+\* repaired put_doc (meta_data always merged)
 SPECIFICATION Spec
 CONSTANTS
   TypeOf <- TEsEs
@@ -7,19 +7,19 @@ CONSTANTS
   HasTrackParams <- TPdrv
   Keys <- K1
   TagKey = "tag_u"
-  Vals <- V1
+  Vals <- V12
   Nodes <- N1
-  Ctxs <- CtxOne
-  WorldsOf <- WorldsOne
-  PutArgs <- PutOne
+  Ctxs <- CtxTwo
+  WorldsOf <- WorldsAll
+  PutArgs <- PutMeta
   ChunkSize = 2
   MaxRetries = 1
-  Alpha <- AlphaAll
-  RefreshAlpha <- RBoth
-  MaxRecs = 3
-  MaxClock = 0
-  MaxMeta = 0
-  MaxCalls = 3
+  Alpha <- AlphaOk
+  RefreshAlpha <- ROk
+  MaxRecs = 2
+  MaxClock = 2
+  MaxMeta = 2
+  MaxCalls = 1
   MaxOpens = 2
   ExplicitRel = 5
   ExplicitAbs = 7
